@@ -1111,8 +1111,10 @@ class LocalVar(MemoryDesc):
 
     def fmt_addr(self, instance):
         if isinstance(instance, SubProgram):
-            return (self.fmt,
-                    (instance.ebpf.stack & -8) + self.relative_addr)
+            # the frame of the main program as declared: while temporaries
+            # are allocated, ebpf.stack is lower
+            return (self.fmt, (type(instance.ebpf).stack & -8)
+                              + self.relative_addr)
         else:
             return self.fmt, self.relative_addr
 
@@ -1550,7 +1552,11 @@ class EBPF(EBPFBase):
     @contextmanager
     def get_stack(self, size):
         oldstack = self.stack
-        self.stack = (self.stack - size) & -size
+        # temporaries must not overlap the local variables of subprograms,
+        # which live just below our own
+        bottom = min([self.stack] + [(type(self).stack & -8) + p.stack
+                                     for p in self.subprograms])
+        self.stack = (bottom - size) & -size
         yield self.stack
         self.stack = oldstack
 
